@@ -364,6 +364,16 @@ Theorem C02_anchored3_exact : forall thr ad read mt,
 Proof. exact match_to_anchored3_exact. Qed.
 Print Assumptions C02_anchored3_exact.
 
+(** the cut-position theorems speak about match_to; what the adapter classes run is match_to behind its k-mer
+    prefilter, and that is the same function (C07_no_change, restated here so that the chain is visible in one file) *)
+Theorem C02_prefilter_is_transparent : forall thr ad read,
+  thr 0 = 0 -> (forall i, 0 <= i < zlen (a_seq ad) -> thr i <= thr (i + 1) <= thr i + 1) ->
+  (forall i, 1 <= i <= zlen (a_seq ad) -> thr i < i) -> (forall L, thr L <= thr (zlen (a_seq ad))) ->
+  ascii (a_seq ad) -> ascii read -> 1 <= a_min_overlap ad -> zlen (a_seq ad) < INDEL_COST_OFF ->
+  match_to_prefiltered thr ad read = match_to thr ad read.
+Proof. exact prefilter_no_change. Qed.
+Print Assumptions C02_prefilter_is_transparent.
+
 (** non-vacuity of C02_leftmost_copy, second alternative: -a ACGTACGTAC (30%) on ACGTTCGAACGGACGTACGTAC.  The
     leftmost error-free copy is at 12; the match reported is [0, 10) with two errors, recorded before the copy's
     last column and starting more than 5 characters before 12 -- the read is cut at 0 <= 12 *)
